@@ -21,6 +21,8 @@ pub struct Msg {
 
 #[derive(Clone, Debug, Hash)]
 pub struct SubInst {
+    /// room in the delivery window when the subscription was made (bounds the retained replay)
+    pub retained_window: usize,
     /// filter as subscribed (may be `$share/g/..`)
     pub filter: String,
     pub match_filter: String,
@@ -722,7 +724,19 @@ impl Model {
             }
         }
         let c = &mut self.clients[ci];
+        // "provided those fit in its delivery window": what is free of it when the
+        // subscription is made, less what its other subscriptions may put there first
+        let pending: usize = c
+            .subs
+            .iter()
+            .enumerate()
+            .filter(|(_, s)| s.active && s.group.is_none())
+            .map(|(j, s)| s.expect.len().saturating_sub(c.frontier.iter().map(|p| p[j]).min().unwrap_or(0) as usize))
+            .sum();
+        let total = if q == 0 { self.max_out.min(10_000) as usize } else { 100 };
+        let retained_window = total.saturating_sub(c.outstanding.len() + pending);
         c.subs.push(SubInst {
+            retained_window,
             filter: f.to_string(),
             match_filter: mf,
             group,
@@ -1278,7 +1292,7 @@ impl Model {
                         let mut seen = s.retained_seen.clone();
                         seen.sort();
                         // "provided those fit in its delivery window"
-                        let window = if s.qos == 0 { self.max_out.min(10_000) as usize } else { 100 };
+                        let window = s.retained_window;
                         // every message owed at subscription time has been replayed, unless it
                         // was replaced or cleared before the subscription was first served
                         let missing = due.iter().any(|d| {
